@@ -146,7 +146,11 @@ fn next_token_case<const LM: bool>(lexer_n: usize, lens: [usize; 3], start: usiz
     let mut ctx: Ctx = LRContext::new(Position { pos: start, line_col: None });
     let last = any_span();
     ctx.set_span(last);
+    let st0 = ctx.state();
     let r = parser.next_token(&input[..], &mut ctx, &None);
+    // the contract that unit lr_driver (Verus) ASSUMES of next_token, checked here on the real body (bounded): the
+    // context's state is left alone and -- there is no layout parser -- so is its span
+    assert!(ctx.state() == st0 && ctx.span() == last, "lr_driver's assumed contract of next_token");
     if lexer_n > 0 {
         // which token must be chosen
         let mut best = 0;
